@@ -86,6 +86,30 @@ func checkC01(c *Ctx) error {
 				}
 			}
 		}
+		// the same obligation from the declaration's side: whichever way the generated code
+		// passes values (memory cells or plain locals), every provider the reference evaluation
+		// of the declaration puts below a consumer has returned before the consumer is entered
+		if ic.Ref.Valid {
+			for _, en := range e.Enters {
+				for p := range ic.Ref.DependsOn[en.Ev.Prov] {
+					if p == "value" || p == "struct" {
+						continue // constants and field reads are not calls: no enter/exit to order
+					}
+					var before []string
+					for _, n := range e.Nodes {
+						if n.Ev.Kind == "exit" && n.Ev.Prov == p {
+							before = append(before, fmt.Sprintf("(and %s (< %s %s))", n.X, n.C, en.C))
+						}
+					}
+					v, m := q(en.X, smt.Not(smt.Or(before...)))
+					if v == smt.Sat {
+						ic.report(map[string]string{"kind": "entered-before-producer-returned", "basis": "declaration", "consumer-thread": threadKind(en.Thread), "_consumer": en.Ev.Prov, "_producer": p}, m, "order-"+en.Ev.Prov)
+					} else if v == smt.Unknown {
+						c.Inconclusive("declaration-order query unknown for " + ic.Name())
+					}
+				}
+			}
+		}
 	})
 	if err != nil {
 		return err
